@@ -29,6 +29,8 @@ func run(r *chk.Run) {
 	// ... and well-formed events whose leading bytes take every value must pass
 	// the reader and the gate unchanged
 	e2.RunHeaderBytes(r)
+	// ... and a transaction of very many events is still one transaction
+	e2.RunScale(r, "big-transaction")
 }
 
 func replay(kind string, input json.RawMessage) (bool, string) {
@@ -41,6 +43,8 @@ func replay(kind string, input json.RawMessage) (bool, string) {
 		return e2.ReplayHeaderBytes(input)
 	case "history":
 		return e2.ReplayHistory(kind, input)
+	case "scale":
+		return e2.ReplayScale(input)
 	}
 	return false, "unknown replay kind " + kind
 }
